@@ -21,4 +21,5 @@ def run(ctx, rep):
     exceptions.rule_catchable_classes(ctx, rep, "C16-R3", only_pred=_in_family, floor=1)
     textparse.rule_negative_positions(ctx, rep, "C16-R4", only=_in_family, floor=3)
     textparse.rule_sibling_index_readers(ctx, rep, "C16-R5")
+    textparse.rule_script_whitespace(ctx, rep, "C16-R6", only=_in_family)
     rep.undecided += ["the method result tables over the argument grid (values, not shape): a runtime differential, outside static analysis"]
